@@ -105,6 +105,15 @@ CHECKS["C07"] = dict(
     note="A damaged blob that still decodes as a version-1 snapshot counts as valid. wasm wrapper not covered.",
 )
 
+CHECKS["C18"] = dict(
+    engine="VEC",
+    technique="deterministic simulation: seeded histories of insert/re-insert/remove/search/batch-search over the real HnswIndex (seeded level draw, fixed-hasher containers) with per-run dimension, metric, m/ef and magnitude; every result list judged against an id->vector model and scalar distance definitions",
+    category="exploration",
+    text="Decides the index-history half of the property: after any generated history a search returns at most k distinct ids that are all currently present, each with its true distance (f64 definition, tolerance scaled to the accumulated magnitude), in non-decreasing order; batch search equals one-by-one search; a non-empty index never answers a k>=1 search with nothing.",
+    design_ref="DESIGN.md §3 C18",
+    note="NOT decided: 'k results whenever k are reachable' (recorded as a probe only), exact-search optimality, SIMD-vs-scalar agreement and quantiser error bounds (pure functions of their inputs).",
+)
+
 NOT_APPLICABLE = {
     "C08": "pure function of (graph, query text): no schedule, clock, I/O, fault or shared state in the statement or its quantifier; differential/reference-interpreter testing is the fitting family, not simulation",
     "C09": "pure function of (graph, statistics state, query, optimizer switches); stale statistics are an input, not a schedule",
@@ -135,6 +144,7 @@ manifest = {
         {"name": "RDF", "path": "sim/src/eng_rdf.rs", "serves_properties": ["C13"], "kind_free_text": "history simulator over RdfStore / SPARQL templates with a set model"},
         {"name": "CODEC", "path": "sim/src/eng_codec.rs", "serves_properties": ["C15"], "kind_free_text": "history simulator over PropertyStorage and ChunkedAdjacency with map models"},
         {"name": "SNAP", "path": "sim/src/eng_snap.rs", "serves_properties": ["C07"], "kind_free_text": "copy routes over history-built graphs; byte faults on the snapshot blob"},
+        {"name": "VEC", "path": "sim/src/eng_vec.rs", "serves_properties": ["C18"], "kind_free_text": "history simulator over HnswIndex with an id->vector model"},
         {"name": "SCHED", "path": "sim/src/eng_sched.rs", "serves_properties": ["C20", "C03", "C13"], "kind_free_text": "shuttle-scheduled simulated threads over the real stores/managers via the parking_lot lock seam (shims/parking_lot) and hooked atomics"},
         {"name": "DISK", "path": "sim/src/eng_disk.rs", "serves_properties": ["C05", "C06"], "kind_free_text": "persistent GrafeoDB over a tapped tmpfs directory + simulated clock; crash images computed from the disk-event log"},
     ],
